@@ -199,6 +199,17 @@ impl PacketTrait for Packet {
             Self::GnupgAeadData(p) => p.packet_header(),
         }
     }
+
+    // `Serialize for Packet` already writes each packet including its header,
+    // the provided methods would add a second one.
+
+    fn to_writer_with_header<W: io::Write>(&self, writer: &mut W) -> Result<()> {
+        self.to_writer(writer)
+    }
+
+    fn write_len_with_header(&self) -> usize {
+        self.write_len()
+    }
 }
 
 impl<'a, T: 'a + PacketTrait> PacketTrait for &'a T {
